@@ -18,7 +18,7 @@ open CaddyModel.C12
 #print axioms cas_counter
 #print axioms id_resolves_partial
 #print axioms id_resolves_full_fails
-#print axioms id_on_root_full_fails
+#print axioms id_on_root_old_code_fails
 #print axioms running_config_is_document
 #print axioms rejected_changes_nothing
 #print axioms rejected_changes_nothing_old_code_fails
